@@ -682,12 +682,12 @@ class Executor:
                     args = [a0] + list(args[1:])
         yield from self.run(fn, args, st, depth + 1)
 
-    def call_value(self, f, args, st, depth):
+    def call_value(self, f, args, st, depth, hint=None):
         """call a closure / fn item value with the given argument list"""
         if isinstance(f, Ref):
             f = st.deref_all(f)
         if isinstance(f, Closure):
-            fn = self.prog.closure_fn(f.key, f.parent, len(args), f.names)
+            fn = self.prog.closure_fn(f.key, f.parent, len(args), f.names, list(args), st, hint)
             if fn is None:
                 raise Unsupported(f'closure body not found: {f.key}')
             # closure fns take (closure-or-ref, args...) ; by-ref closures get a reference to the closure value
